@@ -18,7 +18,7 @@ Definition factorize (n : Z) : list Z :=
     (flat_map (fun i => if n mod i =? 0 then [i; cdiv n i] else [])
               (range1 (Z.to_nat (sqrt_up n)))).
 
-(* get_possible_factor_sizes: the closure _try_take over the state (factors, n_tiles) *)
+(* get_possible_factor_sizes: the inner closure that tests one candidate, over the state (factors, n_tiles) *)
 Definition try_take (outer : Z) (st : list Z * list Z) (n : Z) : list Z * list Z :=
   let '(factors, ntiles) := st in
   if (outer <? n) || memZ n factors then st
